@@ -71,7 +71,9 @@ def build(st):
     if st.get('gitignore'):
         with open(os.path.join(root, '.gitignore'), 'w') as f:
             f.write('mine\n')
-    with open(os.path.join(cfg, 'settings.yaml'), 'w') as f:
+    if st.get('crlf'):
+        settings = settings.replace('\n', '\r\n')
+    with open(os.path.join(cfg, 'settings.yaml'), 'w', newline='') as f:
         f.write(settings)
     return root
 
@@ -125,6 +127,11 @@ def run(cmd, root, migrate=False, explicit_output=False, embedded=True):
         os.chdir(cwd)
 
 
+def migrated_now(before, after):
+    csv = os.path.join('config', 'merchant_categories.csv')
+    return csv in before and csv not in after
+
+
 def frame_ok(before, after, cmd, migrate, st):
     """The frame condition of the property, over {relative path: bytes}."""
     ok = True
@@ -140,6 +147,10 @@ def frame_ok(before, after, cmd, migrate, st):
                 moved = after.get(path + '.bak')
                 ok = ok and (now == content or (now is None and moved == content))   # kept, or kept as the backup
                 continue
+            if path == os.path.join('config', 'merchants.rules') and now != content:
+                # an existing merchants.rules may only be replaced by the migration if it is kept as merchants.rules.bak
+                ok = ok and after.get(path + '.bak') == content and migrated_now(before, after)
+                continue
             if path == os.path.join('config', 'merchant_categories.csv.bak') and now != content:
                 # an older backup may only be replaced by the migration's own backup of the CSV
                 ok = ok and now == before.get(os.path.join('config', 'merchant_categories.csv'))
@@ -153,28 +164,30 @@ def frame_ok(before, after, cmd, migrate, st):
             ok = ok and p in ('.gitignore', os.path.join('config', 'merchants.rules'), os.path.join('config', 'views.rules'),
                               os.path.join('config', 'merchant_categories.csv.bak'), os.path.join('config', 'settings.yaml'))
         elif cmd.startswith('up') and migrate:
-            ok = ok and p in (os.path.join('config', 'merchants.rules'), os.path.join('config', 'merchant_categories.csv.bak'))
+            ok = ok and p in (os.path.join('config', 'merchants.rules'), os.path.join('config', 'merchant_categories.csv.bak'), os.path.join('config', 'merchants.rules.bak'))
         else:
             ok = False
     # migration happens only when requested (init / --migrate), only for a CSV that has rules and no merchants.rules yet
     migrated = os.path.join('config', 'merchant_categories.csv') in before and os.path.join('config', 'merchant_categories.csv') not in after
     if migrated:
-        ok = ok and (cmd == 'init' or migrate) and not st.get('csv_empty')
+        ok = ok and (cmd == 'init' or migrate)
         if cmd == 'init':
-            ok = ok and not st.get('rules')
+            ok = ok and not st.get('rules') and not st.get('csv_empty')     # init migrates only a CSV that has rules, and only once
     return ok
 
 
 def analysis_commands(c):
     pool()
 
-    def ob(rules: bool, csv: bool, views: bool, views_line: bool, migrate: bool, explicit_output: bool) -> bool:
+    def ob(rules: bool, csv: bool, views: bool, views_line: bool, migrate: bool, explicit_output: bool, csv_empty: bool) -> bool:
         """
         post: _
         """
         from engine import fsx
         import shutil
-        st = {'rules': bool(rules), 'csv': bool(csv), 'views': bool(views), 'views_line': bool(views_line), 'rules_line': bool(rules), 'output': bool(explicit_output)}
+        if not COMMANDS[int(c)].startswith('up'):
+            csv_empty = False
+        st = {'rules': bool(rules), 'csv': bool(csv), 'csv_empty': bool(csv_empty), 'views': bool(views), 'views_line': bool(views_line), 'rules_line': bool(rules) and not (bool(csv) and bool(csv_empty)), 'output': bool(explicit_output)}
         embedded = not explicit_output
         root = build(st)
         cmd = COMMANDS[int(c)]
@@ -197,9 +210,10 @@ def init_command(rules, csv):
         """
         from engine import fsx
         import shutil
-        views_line, rules_line, gitignore = views, (rules and not rules_empty), bak
+        views_line, rules_line, gitignore = False, (rules and not rules_empty), bak
+        crlf = bool(views) and bool(bak)
         st = {'rules': bool(rules), 'rules_empty': bool(rules_empty), 'csv': bool(csv), 'csv_empty': bool(csv_empty), 'views': bool(views),
-              'views_line': bool(views_line), 'rules_line': bool(rules_line), 'bak': bool(bak), 'gitignore': bool(gitignore)}
+              'views_line': bool(views_line), 'rules_line': bool(rules_line), 'bak': bool(bak), 'gitignore': bool(gitignore), 'crlf': crlf}
         root = build(st)
         before = fsx.snapshot(root)
         run('init', root)
